@@ -19,6 +19,10 @@ type ctx struct {
 	ConnL, ConnP uint16 // established connection: stack port, peer port
 	ConnSeq      uint32 // next sequence number the peer would send
 	ConnAck      uint32 // next sequence number expected from the stack
+	// a second connection that the barrage addresses only through ICMP errors (so that it is
+	// still alive, with data in flight, when such an error arrives)
+	Conn2L, Conn2P uint16
+	Conn2Ack       uint32
 	SMAC, PMAC   [6]byte
 }
 
@@ -106,6 +110,9 @@ func corpus(c *ctx, r *fw.Rand) pkt {
 		return pkt{rfc.EthIPv4, p.Bytes(true)}
 	case 12: // ICMPv4 error quoting a packet "sent" by the stack
 		inner := rfc.TCP{SrcPort: c.ConnL, DstPort: c.ConnP, Seq: c.ConnAck, Flags: rfc.ACK}
+		if c.Conn2L != 0 && r.Bool() {
+			inner = rfc.TCP{SrcPort: c.Conn2L, DstPort: c.Conn2P, Seq: c.Conn2Ack, Flags: rfc.ACK}
+		}
 		ih := rfc.IPv4{TTL: 60, Proto: rfc.ProtoTCP, Src: c.S4, Dst: c.P4, Payload: inner.Bytes4(c.S4, c.P4, true)}.Bytes(true)
 		q := ih
 		if n := 20 + r.Intn(len(ih)-19); n < len(q) {
